@@ -716,3 +716,21 @@ Section DirectedSlots.
     destruct li; [|discriminate]. destruct lo; [|discriminate]. inversion Hcr; subst r; cbn [cr_out]. exact Hkeep.
   Qed.
 End DirectedSlots.
+
+(* ------------------------------------------------------------------ single attachment is a consequence of acceptance *)
+Theorem compile_single_attach d g c : build d = Ok g -> compile d g = Ok c -> single_attach g c.
+Proof.
+  intros Hb Hc x e Hx He Hl. unfold epair. exact (compile_ni_single d g c Hb Hc x e Hx He Hl).
+Qed.
+
+Lemma pair_eqb_refl a : pair_eqb a a = true.
+Proof. destruct a. unfold pair_eqb. cbn. rewrite !(proj2 (str_eqb_eq _ _) eq_refl). reflexivity. Qed.
+
+Theorem single_attachb_holds d g c : build d = Ok g -> compile d g = Ok c -> single_attachb g c = true.
+Proof.
+  intros Hb Hc. pose proof (compile_single_attach d g c Hb Hc) as Hs. unfold single_attachb.
+  apply forallb_forall. intros x Hx. apply forallb_forall. intros e He. unfold link_edges in He. apply filter_In in He.
+  destruct He as (He & Hl). destruct (Hs x e Hx He Hl) as (S1 & S2). apply andb_true_iff. split.
+  - destruct (str_eqb (e_src e) (cn_name x)) eqn:Eq; [|reflexivity]. apply str_eqb_eq in Eq. rewrite (S1 Eq). cbn. apply pair_eqb_refl.
+  - destruct (str_eqb (e_dst e) (cn_name x)) eqn:Eq; [|reflexivity]. apply str_eqb_eq in Eq. rewrite (S2 Eq). cbn. apply pair_eqb_refl.
+Qed.
